@@ -59,6 +59,6 @@ operator<< (ostream &o, mpf_srcptr f)
   ASSERT (ret != -1);
   __gmp_asprintf_final (&d);
 
-  gmp_allocated_string  t (result);
+  gmp_allocated_string  t (result, d.size);
   return o.write (t.str, t.len);
 }
